@@ -335,7 +335,22 @@ func (f *fidelity) expr(e hclsyntax.Expression) {
 	case *hclsyntax.ParenthesesExpr:
 		f.expr(x.Expression)
 	case *hclsyntax.FunctionCallExpr:
-		f.wantEq("FunctionCallExpr.NameRange", x.NameRange, x.Name)
+		// a namespaced name is several tokens (`ns :: f`); blanks and comments may sit between them, so
+		// the range must slice to the name's tokens in order with only blanks / comments in between
+		f.want("FunctionCallExpr.NameRange", x.NameRange, func(sl string) bool {
+			toks, _ := hclsyntax.LexExpression([]byte(sl), "n", hcl.InitialPos)
+			var sb strings.Builder
+			for _, t := range toks {
+				switch t.Type {
+				case hclsyntax.TokenIdent, hclsyntax.TokenDoubleColon:
+					sb.Write(t.Bytes)
+				case hclsyntax.TokenComment, hclsyntax.TokenNewline, hclsyntax.TokenEOF:
+				default:
+					return false
+				}
+			}
+			return sb.String() == x.Name
+		}, fmt.Sprintf("the tokens of %q", x.Name))
 		f.wantEq("FunctionCallExpr.OpenParenRange", x.OpenParenRange, "(")
 		f.wantEq("FunctionCallExpr.CloseParenRange", x.CloseParenRange, ")")
 		for _, a := range x.Args {
